@@ -227,6 +227,8 @@ def run_item(item):
             if d > thr:
                 worst = int(np.argmax(np.abs(emp - shares)))
                 sig = _law_sig(a) + ("-exact-length" if item.get("exactlen") else "") + ("|by-density" if item.get("bydensity") else "")
+                if sig == "boolean-boundary" and G.depth(a["a"]) >= 2:
+                    sig = "nested-boolean-boundary"     # operand boundary lengths are themselves estimates
                 key = "C11|nonuniform|%s" % sig if sig in FAMILIES else "C11|nonuniform|%s|%s" % (kind, sig)
                 if d > SEVERE:
                     key += "|severe"
@@ -493,7 +495,7 @@ def _law_sig(a):
     return "%s/%s" % (top_sig(a), "+".join(sorted(leaf_flavors(a))))
 
 
-FAMILIES = ("boolean-boundary", "overlapping-union", "concave-polygon", "boolean-boundary-exact-length", "union-of-estimated-volumes")
+FAMILIES = ("boolean-boundary", "nested-boolean-boundary", "overlapping-union", "concave-polygon", "boolean-boundary-exact-length", "union-of-estimated-volumes")
 SEVERE = 0.6     # a known-biased family deviating more than this (grossly broken, not merely biased) gets its own key
 
 
